@@ -418,6 +418,12 @@ class Mp4Atom(ObjectWithFields):
             hdr = Mp4Atom.parse(src, parent, options=options)
             if hdr is None:
                 break
+            if hdr['size'] < hdr['header_size']:
+                # a box can't be smaller than its own header. Without this
+                # check a corrupt size field would stop the cursor advancing
+                raise ValueError(
+                    f'{prefix}invalid size {hdr["size"]} for box "{hdr["atom_type"]}" ' +
+                    f'at position {hdr["position"]}')
             try:
                 Box = fourcc.BOXES[hdr['atom_type']]
             except KeyError:
@@ -582,9 +588,10 @@ class Mp4Atom(ObjectWithFields):
                 options.log.debug('Failed to read atom type. pos=%d', position)
             return None
         if size == 0:
+            # box extends to the end of the file
             pos = src.tell()
             src.seek(0, 2)  # seek to end
-            size = src.tell() - pos
+            size = src.tell() - position
             src.seek(pos)
         elif size == 1:
             size_ext = src.read(8)
